@@ -87,6 +87,11 @@ func genStream(rt *rapid.T, l string, metricOnly, logOnly bool, big bool, pool [
 	}
 	nl := rapid.IntRange(1, 4).Draw(rt, l+".nl")
 	seen := map[string]bool{}
+	if rapid.IntRange(0, 5).Draw(rt, l+".ttl?") == 0 {
+		// the retention control label, first on the wire
+		seen["__ttl_days__"] = true
+		s.Labels = append(s.Labels, [2]string{"__ttl_days__", rapid.SampledFrom([]string{"7", "30", "x"}).Draw(rt, l+".ttlv")})
+	}
 	for i := 0; i < nl; i++ {
 		n := rapid.SampledFrom(labelNames[:6]).Draw(rt, fmt.Sprintf("%s.ln%d", l, i))
 		if seen[n] {
